@@ -1,5 +1,7 @@
 package main
 
+import "go/ast"
+
 // C03: facts about the executed-filter of the three executors
 //   - Substrate Execute / EVM proposalBatches: order of lookup, error return, skip-if-executed and collection in the loop
 //   - Substrate: which slice the emptiness test after the loop looks at
@@ -31,6 +33,34 @@ func init() {
 		o.Facts["evm_loop_order"] = evmOrder
 		o.Lean.WriteString("/-- EVM `proposalBatches`: order of lookup / error return / skip / collection -/\n")
 		o.Lean.WriteString("def evmOrder : List String := " + LeanStrList(rel) + "\n\n")
+
+		// what is hashed (signed) and what is handed to watchExecution (submitted) inside Execute
+		for _, x := range []struct {
+			f    *ast.File
+			lean string
+		}{{evm, "evm"}, {sub, "sub"}} {
+			hashArg, watchArg := "", ""
+			Walk(FindFunc(x.f, "Executor", "Execute"), func(n ast.Node) bool {
+				if c, ok := n.(*ast.CallExpr); ok {
+					switch Src(c.Fun) {
+					case "e.bridge.ProposalsHash":
+						if len(c.Args) == 1 {
+							hashArg = Src(c.Args[0])
+						}
+					case "e.watchExecution":
+						if len(c.Args) >= 3 {
+							watchArg = Src(c.Args[2])
+						}
+					}
+				}
+				return true
+			})
+			o.Facts[x.lean+"_hash_arg"] = hashArg
+			o.Facts[x.lean+"_watch_arg"] = watchArg
+			o.Lean.WriteString("/-- " + x.lean + " `Execute`: argument of ProposalsHash and third argument of watchExecution -/\n")
+			o.Lean.WriteString("def " + x.lean + "HashArg : String := " + LeanStr(hashArg) + "\n")
+			o.Lean.WriteString("def " + x.lean + "WatchArg : String := " + LeanStr(watchArg) + "\n\n")
+		}
 
 		btc := o.ParseFile("chains/btc/executor/executor.go")
 		cond, ok := "false", false
